@@ -17,7 +17,7 @@ pub fn cfg() -> ProgCfg {
 
 /// the derivative classes of e as a list of intervals (from the public iterator)
 pub fn class_ranges(e: RegLan) -> Vec<(u32, u32)> {
-    e.char_ranges().map(|r| (r.pick(), r.pick() + (r.size() - 1))).collect()
+    e.char_ranges().map(crate::bisim::bounds_of).collect()
 }
 
 fn class_of(ranges: &[(u32, u32)], c: u32) -> ClassId {
